@@ -9,6 +9,7 @@ congruence, the old single-source checker on sub-steps) refines the value; `chec
 optimizer only takes accepted steps is VALIDATED per run by the harness (section `xtrace`), not proved.
 -/
 import DaskModel.Lemmas.RelExpr2Len
+import DaskModel.Lemmas.RelExpr2Old
 namespace Dask.C43x
 open Dask.RelExpr (Cell BinOp getCell colIdx b2c notC Src)
 open Dask.RelExpr2
@@ -378,5 +379,62 @@ def noLeaf : E2 → E2 → Bool := fun _ _ => false
 theorem check2_noLeaf_sound (ss : List Src) (fuel : Nat) (a b : E2)
     (h : check2 noLeaf (srcCols ss) (srcLens ss) fuel a b = true) : Ref (den2 ss a) (den2 ss b) :=
   check2_sound ss noLeaf (fun _ _ h => by simp [noLeaf] at h) fuel a b h
+
+/-- THE CHECKER AS THE HARNESS RUNS IT (leaf oracle = the old proved single-source checker `checkStep` on sub-steps):
+    for well-formed sources, an accepted step refines the value -/
+theorem check2_old_sound (ss : List Src) (hwf : ∀ s ∈ ss, Dask.C43.WF s) (fuel : Nat) (a b : E2)
+    (h : check2 (oldOK (srcCols ss)) (srcCols ss) (srcLens ss) fuel a b = true) : Ref (den2 ss a) (den2 ss b) :=
+  check2_sound ss _ (fun x y hxy => Ref.of_eq (oldOK_sound ss hwf x y hxy)) fuel a b h
+
+/-- … and so does every accepted trace: if the logical expression has a value, the last expression of the trace has
+    the same value -/
+theorem checkTrace2_old_sound (ss : List Src) (hwf : ∀ s ∈ ss, Dask.C43.WF s) (fuel : Nat) (es : List E2) (e : E2)
+    (h : checkTrace2 (oldOK (srcCols ss)) (srcCols ss) (srcLens ss) fuel (e :: es) = true) :
+    Ref (den2 ss e) (den2 ss ((e :: es).getLast (by simp))) :=
+  checkTrace2_sound ss _ (fun x y hxy => Ref.of_eq (oldOK_sound ss hwf x y hxy)) fuel es e h
+
+/-! ## non-vacuity: concrete accepted / rejected steps (kernel-evaluated) -/
+
+def exSrcs : List Src :=
+  [⟨["k", "a", "c"], [[some 1, some 10, some 0], [some 2, some 20, none], [some 2, some 30, some 5]]⟩,
+   ⟨["k", "a", "b"], [[some 2, some 5, some 7], [some 3, some 6, some 8]]⟩]
+
+example : ∀ s ∈ exSrcs, Dask.C43.WF s := by
+  intro s hs
+  simp only [exSrcs, List.mem_cons, List.not_mem_nil, or_false] at hs
+  rcases hs with rfl | rfl <;> exact ⟨by decide, by decide⟩
+
+/-- `merge(l, r, how='left')[['a_x', 'b']] ⟶ merge(l[['k','a']], r)[['a_x','b']]` is accepted … -/
+example : check2 noLeaf (srcCols exSrcs) (srcLens exSrcs) 6
+    (.proj ["a_x", "b"] (.merge .left ["k"] (.src 0) (.src 1)))
+    (.proj ["a_x", "b"] (.merge .left ["k"] (.proj ["k", "a"] (.src 0)) (.src 1))) = true := by decide
+
+/-- … but also dropping `a` on the right (which would rename `a_x` to `a`) is REJECTED -/
+example : check2 noLeaf (srcCols exSrcs) (srcLens exSrcs) 6
+    (.proj ["a_x", "b"] (.merge .left ["k"] (.src 0) (.src 1)))
+    (.proj ["a_x", "b"] (.merge .left ["k"] (.proj ["k", "a"] (.src 0)) (.proj ["k", "b"] (.src 1)))) = false := by decide
+
+/-- dropping a join key is rejected -/
+example : check2 noLeaf (srcCols exSrcs) (srcLens exSrcs) 6
+    (.proj ["c"] (.merge .inner ["k"] (.src 0) (.src 1)))
+    (.proj ["c"] (.merge .inner ["k"] (.proj ["c"] (.src 0)) (.src 1))) = false := by decide
+
+/-- `concat([l, r])[['k','b']] ⟶ concat([l[['k']], r[['k','b']]])` (parent projection dropped) -/
+example : check2 noLeaf (srcCols exSrcs) (srcLens exSrcs) 6
+    (.proj ["k", "b"] (.concat (.src 0) (.src 1)))
+    (.concat (.proj ["k"] (.src 0)) (.proj ["k", "b"] (.src 1))) = true := by decide
+
+/-- `len(concat([l, r])) ⟶ 0 + 3 + 2` -/
+example : check2 noLeaf (srcCols exSrcs) (srcLens exSrcs) 8
+    (.len (.concat (.src 0) (.src 1))) (.bin .add (.bin .add (.lit 0) (.lit 3)) (.lit 2)) = true := by decide
+
+/-- a wrong length is rejected -/
+example : check2 noLeaf (srcCols exSrcs) (srcLens exSrcs) 8
+    (.len (.concat (.src 0) (.src 1))) (.bin .add (.bin .add (.lit 0) (.lit 3)) (.lit 3)) = false := by decide
+
+/-- the denotation is not vacuous: the left merge of the example sources, projected -/
+example : den2 exSrcs (.proj ["a_x", "b"] (.merge .left ["k"] (.src 0) (.src 1))) =
+    some (.frame ["a_x", "b"] [([0, 0], [some 10, none]), ([0, 1, 1, 0], [some 20, some 7]), ([0, 2, 1, 0], [some 30, some 7])]) := by
+  decide
 
 end Dask.C43x
